@@ -45,7 +45,7 @@ class DatabaseClientConnection(BaseModel):
 
         :return: Boolean value
         """
-        if self.is_active and self.client:
+        if self.is_active and self.client and self.client._can_perform_action():  # noqa
             return self.client._query(connection_id=self.connection_id, sql=sql)  # noqa
         return False
 
